@@ -102,6 +102,28 @@ Proof.
     eapply IH; [|exact H]. eapply add_dist_wf; eassumption.
 Qed.
 
+Lemma resolve_loop_wf k : forall fuel e u o roots retried g, wf g -> sres_wf (resolve_loop k fuel e u o roots retried g).
+Proof.
+  induction k as [|k IH]; intros fuel e u o roots retried g Hwf; cbn [resolve_loop]; [exact I|].
+  destruct (filter (fun nd => unsolved g nd && negb (nmem nd retried)) (sort_nodes g (visit_nodes g roots))) as [|nd rest]; [exact Hwf|].
+  pose proof (compile_roots_wf fuel e u o g nd None 1 resolve_pass_budget [] Hwf) as H1.
+  destruct (compile_roots fuel e u o g nd None 1 resolve_pass_budget []) as [g'|g' nm sp|er]; [|exact H1|exact I].
+  apply IH. exact H1.
+Qed.
+
+Lemma resolve_unsolved_wf fuel e u o roots r : sres_wf r -> sres_wf (resolve_unsolved fuel e u o roots r).
+Proof.
+  intros Hr. unfold resolve_unsolved. destruct r as [g2|g2 nm sp|er]; [|exact Hr|exact I].
+  apply resolve_loop_wf. exact Hr.
+Qed.
+
+Lemma check_solved_wf e roots r : sres_wf r -> sres_wf (check_solved e roots r).
+Proof.
+  intros Hr. unfold check_solved. destruct r as [g3|g3 nm sp|er]; [|exact Hr|exact I].
+  destruct (filter (unsolved g3) (sort_nodes g3 (visit_nodes g3 roots))) as [|nd rest]; [exact Hr|].
+  apply liftA_wf. intros spec Hs. exact Hr.
+Qed.
+
 Definition cres_wf (r : cres) : Prop :=
   match r with COk g _ => wf g | CNoCand g _ _ => wf g | CFatal _ => True end.
 
@@ -119,10 +141,12 @@ Proof.
     eapply add_containers_wf; [exact empty_wf|exact E0]. }
   destruct (add_containers e g0 inputs []) as [[g1 roots]|er] eqn:E1; [|exact I].
   assert (Hwf1 : wf g1) by (eapply add_containers_wf; [exact Hwf0|exact E1]).
+  cbv zeta.
   match goal with
   | |- cres_wf (match ?run with _ => _ end) => assert (Hr : sres_wf run); [|destruct run as [g2|g2 nm sp|er]]
   end.
-  - apply fold_sres_wf; [|exact Hwf1].
+  - apply check_solved_wf. apply resolve_unsolved_wf.
+    apply fold_sres_wf; [|exact Hwf1].
     intros acc nd Hacc. destruct acc as [ga|ga nm sp|er]; [|exact Hacc|exact I].
     apply compile_roots_wf. exact Hacc.
   - cbn [sres_wf] in Hr.
